@@ -33,6 +33,14 @@
                                           `run_shift_core` (every `max_recompute`, errors included)
   `σ` is a list of station numbers that is a permutation of `0..n-1`; `reidx σ l d` reads the
   per-station list `l` in that order.  Helper lemmas: `AcnProofs/Lemmas/Equiv*.lean`.
+
+  CONTINUED in four more property files (what this file's audit lists as open is proved there):
+    `AcnProofs/C10Stations.lean`  stations: RAISING runs (`run_equivariant_stations_raise`), `uninterrupted_charging`
+                                  (`run_equivariant_stations_sorted_any`, `…_sorted_uninterrupted`), uncontrolled
+    `AcnProofs/C10Rampdown.lean`  stations × the stateful rampdown estimator (`runSt_equivariant_stations_rampdown`)
+    `AcnProofs/C10Sessions.lean`  session / event listing order: RAISING runs (`run_perm_sessions_raise`)
+    `AcnProofs/C10Shift.lean`     shift: `uninterrupted_charging` (`run_shift_sorted_any`), the sorted algorithms with
+                                  `max_recompute ≠ None` (`run_shift_sorted_recompute`, `run_shift_sorted_late`)
 -/
 import AcnProofs.Lemmas.EquivPilots
 import AcnProofs.Lemmas.EquivShift
@@ -423,10 +431,12 @@ variable {K : Type} [Field K] [LinearOrder K] [IsStrictOrderedRing K] [HasExp K]
                    draws are consumed in station order, and a raise of `update_pilots` leaves the
                    stations BEFORE the offender charged.  Sorted algorithms: `TieFree` on every view of
                    the run — necessary too (stable sort of a station-ordered list).
-       NOT PROVED  `uninterrupted_charging = True` (`apply_minimum_charging_rate` sorts by remaining
-                   time — a second key that would need its own tie-freeness — and fills a rate vector
-                   sequentially); the rampdown estimator (stateful, outside `Sim`'s pure scheduler
-                   parameter).  Runs that raise; non-constant noise (genuinely order-dependent).
+       PROVED IN   `AcnProofs/C10Stations.lean`: `uninterrupted_charging = True` (tie-freeness in
+       OTHER FILES `remaining_time`, the key of the sort inside `apply_minimum_charging_rate`, INSTEAD of the main
+                   key); runs that RAISE (same error, `StEquiv` states — except that an abort inside
+                   `update_pilots` relates only what `update_pilots` does not write, `AbortEquiv`);
+                   `AcnProofs/C10Rampdown.lean`: the rampdown estimator (stateful: `SimSortedRd.runSt`).
+       NOT PROVED  non-constant noise (genuinely order-dependent).
    (2) CONSTRAINT ORDER
        `Acn.Sim` has no constraint table.  The rows are read in two places of the real simulator:
        (a) `network.is_feasible` inside `_update_schedules` — warning only, no state; its verdict is
@@ -447,9 +457,10 @@ variable {K : Type} [Field K] [LinearOrder K] [IsStrictOrderedRing K] [HasExp K]
                    (`run_perm_sessions_sorted`).  No distinct-keys hypothesis: `network.active_evs` is in
                    STATION order whatever the listing order, so the view is the same.
        hypotheses  `Valid` scenario (C01); the original run completes.
-       NOT PROVED  runs that raise: only `run_perm_sessions_core` (cores of two completing runs) /
-                   `run_perm_sessions_partial`; a station permutation combined with the session
-                   permutation in ONE Sim-level statement (compose (1) and (3)).
+       PROVED IN   `AcnProofs/C10Sessions.lean`: runs that raise (`run_perm_sessions_raise`: the same error in
+       OTHER FILES the same period, `CoreEquiv` cores, `Mid` non-core parts).
+       NOT PROVED  a station permutation combined with the session permutation in ONE Sim-level statement
+                   (compose (1) and (3)).
    (4) TIME SHIFT BY `k` — `run_shift`, `run_shift_anchored`, `run_shift_aligned`, `run_shift_from`,
        `run_shift_sorted`
        outputs     pilots, rates: `shiftMat k` (k zero columns in front); core: every timestamp + k, the
@@ -468,9 +479,14 @@ variable {K : Type} [Field K] [LinearOrder K] [IsStrictOrderedRing K] [HasExp K]
                    For the sorted algorithms (greedy / RR, all sorts, interruptible, no estimator) and
                    uncontrolled charging: `SchedShiftInvariant` is proved (`run_shift_sorted`, for
                    `max_recompute = None`, errors included).
-       NOT PROVED  the sorted algorithms with `max_recompute ≠ None` (they answer all-zero rows, not `{}`,
-                   while idle: `SchedIdle` fails for them as stated); raising runs for `max_recompute ≠
-                   None` at Sim level (the event core has them: `run_shift_core`). -/
+       PROVED IN   `AcnProofs/C10Shift.lean`: `uninterrupted_charging` (`run_shift_sorted_any`); the sorted
+       OTHER FILES algorithms with `max_recompute ≠ None` — they answer all-zero rows, not `{}`, while idle, which
+                   leaves the zero pilot matrix unchanged (`SchedIdleZ`): `run_shift_anchored_zero`,
+                   `run_shift_aligned_zero`, `run_shift_sorted_recompute`, and for the remaining case (no event in
+                   period 0, `m ∤ k`) `run_shift_sorted_late`: both runs are shifts of the run of the anchored
+                   scenario, so they coincide from the first event on.
+       NOT PROVED  raising runs for `max_recompute ≠ None` at Sim level (the event core has them:
+                   `run_shift_core`). -/
 
 /-- CAPSTONE (stations).  Register the stations in the order `σ` (any permutation of the station
     numbers) and hand the simulator a scheduler pair that is `SchedEquivariant` (answers views that
@@ -1103,7 +1119,8 @@ variable {K : Type} [Field K] [LinearOrder K] [IsStrictOrderedRing K] [HasExp K]
     `run_shift` applies to them as they are, the shifted scheduler being the adapter built from the
     SHIFTED configuration.  Errors included, every fuel.  (With `max_recompute = m` these algorithms are
     consulted in the idle prefix and answer all-zero rows instead of `{}`: `SchedIdle` fails for them
-    as stated and `run_shift_anchored` / `run_shift_aligned` do not apply.) -/
+    as stated and `run_shift_anchored` / `run_shift_aligned` do not apply — `AcnProofs/C10Shift.lean` has the
+    versions for `SchedIdleZ` that do, and `uninterrupted_charging`.) -/
 theorem run_shift_sorted [HasCeilNat K] (k : Nat) (cfg : Cfg K) (h : ShiftOK cfg)
     (mk : Cfg K → View K → Except EventCore.Err (Schedule K))
     (hmk : (∃ net inf scfg, scfg.uninterrupted = false ∧ mk = fun c => sortedSched net inf c scfg) ∨
